@@ -10,6 +10,9 @@
 //	            RFC 3339 components, number spellings, boolean near misses, lists with one
 //	            odd member) in every member of that form of every type, three contexts
 //	            (tol_test.go, tolref_test.go)
+//	reuse       histories on one receiver: D1 (member = v1) then D2 (member absent / null /
+//	            zero / other value) decoded into the SAME value, every member of every type,
+//	            custom claims, nested objects, leaf types (reuse_test.go)
 //	aes         sealing: length x pattern x key x API x attack, full product
 //	aes-keys    sealing under related keys: base x seal-key variant x open-key variant x
 //	            length x pattern x API (relkeys_test.go)
@@ -30,7 +33,7 @@ func TestMain(m *testing.M) { engine.Main(m) }
 
 func TestCheck(t *testing.T) {
 	c := engine.Start(t, "C12")
-	c.SetRule("E1 per claims type: (custom-map alphabet, incl. one colliding key per registered JSON member) x all <=k member deviations from the zero value, Marshal+Unmarshal of the real code judged by a reference codec; per type every member x JSON shape grammar (<=k members at once) judged by the per-category decoding contract; tolerant forms from generators (locale = language x script x region x variant x separator with known / unknown / malformed values per subtag, locale lists = form x length/position x one generated member, RFC 3339 strings = <=2 deviating components of year, month-day, separator, time, fraction, zone, numbers = spelling x sign x magnitude x notation, booleans = word x casing x wrapping, lists = length/position x kind of the one odd member) decoded in every member of that form of every claims / request / discovery type, in the leaf type and through Locales.UnmarshalText, alone / between valid siblings / as second occurrence of a duplicated member: error, zero value, or exactly the value the document contains, and re-encoding gives that value back; AES sealing full product length x pattern x key x api x attack, and base key x seal-key variant x open-key variant (cut / zero- or otherwise extended / one byte flipped) x length x pattern x api, and op.NewAESCrypto keys differing in one bit per byte position; distinct = (part, oracle rule, observed outcome class)")
+	c.SetRule("E1 per claims type: (custom-map alphabet, incl. one colliding key per registered JSON member) x all <=k member deviations from the zero value, Marshal+Unmarshal of the real code judged by a reference codec; per type every member x JSON shape grammar (<=k members at once) judged by the per-category decoding contract; tolerant forms from generators (locale = language x script x region x variant x separator with known / unknown / malformed values per subtag, locale lists = form x length/position x one generated member, RFC 3339 strings = <=2 deviating components of year, month-day, separator, time, fraction, zone, numbers = spelling x sign x magnitude x notation, booleans = word x casing x wrapping, lists = length/position x kind of the one odd member) decoded in every member of that form of every claims / request / discovery type, in the leaf type and through Locales.UnmarshalText, alone / between valid siblings / as second occurrence of a duplicated member: error, zero value, or exactly the value the document contains, and re-encoding gives that value back; histories on one receiver: every member / custom claim / leaf type x first document (member at a non-zero value, every documented spelling) x second document decoded into the same value (member absent / null / every documented zero or other value, nested objects with inner members absent / empty / other) x {D1 D2, D1 D2 D1} x {alone, with a changing sibling}: a member present in the last document holds exactly what a fresh receiver must give, an absent or null member what was there before or zero, maps merge; AES sealing full product length x pattern x key x api x attack, and base key x seal-key variant x open-key variant (cut / zero- or otherwise extended / one byte flipped) x length x pattern x api, and op.NewAESCrypto keys differing in one bit per byte position; distinct = (part, oracle rule, observed outcome class)")
 	c.Assume("encoding/json (generic map decoding), encoding/base64, crypto/aes and golang.org/x/text/language.Parse are correct (they are the reference for document equality, raw base64url and BCP47 validity)",
 		"oidc.Time values are enumerated within +-2^53 s (JSON numbers are float64 in this codec)",
 		"a custom key that collides with a registered member that is NOT set is judged Either (the statement only speaks about set members)",
@@ -39,6 +42,7 @@ func TestCheck(t *testing.T) {
 		"a locale string denotes the tag x/text/language parses from it, in any of that library's canonical spellings (language.Tag.UnmarshalText keeps iw, language.Parse answers he: both are the document's value); a tag it reports as well-formed but unknown or as malformed denotes nothing",
 		"an RFC 3339 string is one that both time.Parse(time.RFC3339) and the grammar of RFC 3339 section 5.6 accept; where the two differ (lower-case t/z, leap second :60 only in the RFC; one-digit hour, ',' fraction, offsets +24:00 / +01:60 only in Go) the outcome is open between error, zero and either reading",
 		"a member given twice may hold what either occurrence denotes (for plain lists: any mix of their elements, which is what encoding/json produces)",
+		"a receiver that is decoded into again may keep what it held for members the new document does not carry or carries as null, and a Go map (events, custom claims) may keep earlier keys: both are encoding/json's documented behaviour (judged Either); a member the document carries must not keep the earlier value",
 		"sealing: a wrong key / damaged IV must give an error or a different plaintext only for plaintexts of >=16 bytes (for shorter ones a collision has probability >= 2^-120 and the IV is random)")
 
 	// pre-compute member lists (read-only afterwards)
@@ -54,6 +58,7 @@ func TestCheck(t *testing.T) {
 	c.Extra("registered_members_by_reflection", members)
 
 	retainPart(c, t)
+	reusePart(c)
 
 	// quick: (custom x pin) x dev(2) of the members; thorough adds custom x dev(3)
 	groups, ks := [][]string{{"custom", "pin"}}, []int{2}
